@@ -408,8 +408,14 @@ def resolve_macros(
     up to the specified recursion depth.
     @return: tuple of the queue of ops, and the labels' dictionary
     """
-    preprocessor_data = PreprocessorData(memory_width, macros, max_recursion_depth)
-    resolve_macro_aux(preprocessor_data, INITIAL_MACRO_NAME, INITIAL_ARGS, INITIAL_LABELS_PREFIX)
+    # PreprocessorData sets python's (process-global) recursion-limit; restore it afterwards, so that a later assembly
+    #  (its parsing stage runs before the limit is set again) doesn't depend on the max_recursion_depth of this one.
+    python_recursion_limit = sys.getrecursionlimit()
+    try:
+        preprocessor_data = PreprocessorData(memory_width, macros, max_recursion_depth)
+        resolve_macro_aux(preprocessor_data, INITIAL_MACRO_NAME, INITIAL_ARGS, INITIAL_LABELS_PREFIX)
 
-    preprocessor_data.finish(show_statistics)
-    return preprocessor_data.get_result_ops_and_labels()
+        preprocessor_data.finish(show_statistics)
+        return preprocessor_data.get_result_ops_and_labels()
+    finally:
+        sys.setrecursionlimit(python_recursion_limit)
